@@ -25,7 +25,8 @@ MANIFEST_ENTRY = {
             "modes; fftfreq-ordered indices = natural-order window; fftshift/ifftshift/roll algebra; no_shift preprocessing is the "
             "identity on amplitudes for every size; intensity losses vanish at the truth, amplitude losses reduce to the "
             "sqrt(I+eps)-sqrt(I) residual; losses are non-negative and vanish only where masked predictions equal the targets; "
-            "pure-phase objects give mean pattern intensity = total probe intensity; padded object shapes are multiples of 8. "
+            "pure-phase objects give mean pattern intensity = total probe intensity; padded object shapes are multiples of 8; the "
+            "pipeline equals the specification only for scan positions inside the object box (counterexample theorem + known finding). "
             "Every run executes the specification at Float in the Lean driver to simulate 4D-STEM data, feeds them to the real "
             "preprocess/from_models pipeline, compares every intermediate observable with the model and evaluates the property "
             "predicate (loss zero at the truth, strictly larger at perturbations) on the real code for all loss types / batch sizes.",
@@ -44,8 +45,8 @@ RULE = ("a case is one generated ptychography configuration pushed through simul
         "dyadic step?) signature with at least 9 scan positions")
 TRUSTED = ["torch.fft / numpy.fft compute the defining DFT sums; torch advanced indexing, round-half-even of torch.round/np.round (modelled, sampled)",
            "the library runs in float32/complex64: intensities/amplitudes are compared with the float64 model by the 5e-4 rule after "
-           "normalisation by the mean pixel intensity; 'zero to numerical precision' is decided as loss(truth)/loss(zero prediction) "
-           "<= 1e-9 (l2 losses: quadratic in the float32 error, measured ~1e-13) / 2e-5 (l1 losses: linear in the float32 error and in the 1e-9 inside sqrt, measured ~7e-7)"]
+           "normalisation by the mean pixel intensity; 'zero to numerical precision' is decided as |loss(truth) - eps residual|/loss(zero prediction) "
+           "<= 1e-9 (l2 losses: quadratic in the float32 error, measured ~1e-13) / 2e-5 (l1 losses: linear in the float32 error and in the 1e-9 inside sqrt, measured ~7e-7); the eps residual is the exact value sum mask*(sqrt(I+1e-9)-sqrt(I)) [squared for l2] the amplitude losses take at perfect agreement (theorem amplitude_loss_residual; measured up to ~7e-6 of the scale for l1, 1e-10 for l2), computed from the reference data in float64"]
 ASSUMPTIONS = [
     "the reference implementation is Spec.simulate (Model/Forward.lean) executed at Float by the Lean driver; the equality "
     "forward = Spec over the reals is the theorem forward_eq_spec, so a disagreement between the real pipeline and the data can "
@@ -57,6 +58,14 @@ ASSUMPTIONS = [
     "`constant`: decided only for cases whose fitted constant is within 2e-5 px of the pattern centre (generator: point-symmetric "
     "object, symmetric probe, symmetric raster); others are counted in input_distribution as constant.not-applicable",
     "geometry is read back from the library (padding is enlarged to make the object shape a multiple of 8) and compared with the model",
+    "the property predicate is exactly: every loss type x batch size has loss(truth)/loss(zero prediction) <= tolerance per batch, and the "
+    "epoch loss at 5 perturbations (3 object, 2 probe) is strictly larger than at the truth; index / centring / normalisation / "
+    "batch-fraction mechanics are correspondence streams (a change there without a failing loss ends as no-failing-input-found)",
+    "known finding scan-exceeds-object-box:clip_scan_positions: configurations whose initial raster leaves [0, obj_shape-1] (used padding < 2) "
+    "are generated with low weight, their predicate failures are routed to that one key; theorem forward_eq_spec carries the matching "
+    "hypothesis InBox and scan_exceeds_object_box_counterexample shows it is not automatic",
+    "strict increase is measured at random perturbations only (not a theorem: it depends on the perturbation not being a symmetry); "
+    "stationarity / autograd gradients are not evaluated",
 ]
 EXPLANATION = ("Theorems in Props/C02.lean are about Model/Forward.lean at the real-number instance; each run simulates data with the "
                "specification (Lean, Float), runs the real preprocessing and forward pipeline on them and compares positions, patch "
@@ -202,6 +211,17 @@ def loss_scale(p, lt, bi, mask):
     t = p.dset.targets[bi].double().numpy() * mask
     e = np.sum(np.abs(t)) if "l1" in lt else np.sum(np.abs(t) ** 2)
     return float(e / (len(bi) / p.dset.num_gpts) / p.dset.mean_diffraction_intensity)
+
+
+def amplitude_residual(lt, I, mask, b, n, mean_I):
+    """value of an amplitude loss when prediction and data agree exactly: sum mask*(sqrt(I+1e-9)-sqrt(I)) (l1) or its
+    square (l2), with the batch-fraction and mean-intensity scaling; 0 for intensity losses (float64)"""
+    if "amplitude" not in lt:
+        return 0.0
+    I = np.maximum(np.asarray(I, dtype=np.float64), 0.0)
+    d = (np.sqrt(I + 1e-9) - np.sqrt(I)) * mask
+    e = np.sum(np.abs(d)) if "l1" in lt else np.sum(d ** 2)
+    return float(e / (b / n) / mean_I)
 
 
 def pipeline_case(ctx, drv, case, light=False):
@@ -380,7 +400,11 @@ def pipeline_case(ctx, drv, case, light=False):
             worst = 0.0
             for r in recs:
                 sc = loss_scale(p, lt, r["indices"], mask)
-                rel = r["loss"] / sc if sc > 0 else float("inf")
+                # amplitude losses compare sqrt(I + 1e-9) with sqrt(I): their value at exact agreement is the residual of
+                # theorem amplitude_loss_residual (<= mask^2 * 1e-9 per pixel for l2), evaluated here on the reference data
+                res = amplitude_residual(lt, data[r["indices"]], mask, len(r["indices"]), n, mean_I)
+                ctx.stat_max(f"eps_residual_rel[{lt}]", res / sc if sc > 0 else 0.0)
+                rel = abs(r["loss"] - res) / sc if sc > 0 else float("inf")
                 worst = max(worst, rel)
                 ctx.count()
             truth_epoch[(lt, b)] = float(np.mean([r["loss"] for r in recs]))
@@ -388,7 +412,7 @@ def pipeline_case(ctx, drv, case, light=False):
                 ctx.stat_max(f"loss_at_truth_rel[{lt}]" + ("[scan exceeds object box]" if clipped else ""), worst)
                 if not (worst <= tol):
                     ctx.pred_fail(key("loss-at-truth"), f"{lt} loss at the ground truth is not zero (batch size {b})", {**case, "loss_type": lt, "batch_size": b},
-                                  observed=f"loss/scale={worst:.4g}", required=f"<= {tol:g}")
+                                  observed=f"|loss - eps residual|/scale={worst:.4g}", required=f"<= {tol:g}")
             else:
                 ctx.stat_max(f"not_applicable.loss_at_truth_rel[{lt}]", worst)
         # model loss correspondence at the truth (full batch)
@@ -461,7 +485,8 @@ def run(ctx):
     drv = Driver("C02")
     try:
         round_stream(ctx, drv)
-        for i in range(min(ctx.n(16, 150), 200)):
+        ncfg = min(ctx.n(16, 150), 48 if not ctx.thorough() else 200) if ctx.search_mode else ctx.n(16, 150)
+        for i in range(ncfg):
             case = {"stream": "pipeline", "rseed": ctx.rng.next(), "index": i}
             pipeline_case(ctx, drv, case)
             if ctx.search_mode and ctx.pred_failures:
